@@ -74,6 +74,8 @@ def _run(loop, params, chooser):
         return t
     loop.create_task = create_task
 
+    limit = [K]
+
     class Source(ItemSource):
         def __init__(self):
             self.calls = 0
@@ -87,7 +89,7 @@ def _run(loop, params, chooser):
             if fail_src is not None and j == fail_src:
                 log.append(('raise-src', j))
                 raise Boom('source %d' % j)
-            if len(supplied) < K:
+            if len(supplied) < limit[0]:
                 item = 'i%d' % len(supplied)
                 supplied.append(item)
                 log.append(('supplied', item))
@@ -125,7 +127,17 @@ def _run(loop, params, chooser):
         return entry
     q.get = get
 
-    main = loop.create_task(pipe.process())
+    if params.get('rerun'):
+        # the same Pipeline object processes a source that is refilled after it ran dry
+        @asyncio.coroutine
+        def twice():
+            yield from pipe.process()
+            log.append(('rerun',))
+            limit[0] = K + params['rerun']
+            yield from pipe.process()
+        main = loop.create_task(twice())
+    else:
+        main = loop.create_task(pipe.process())
     fb = dict(params.get('faults', {}))
     conc_values = params.get('conc_values', [0, 1, 2, 3])
     states, trans = [], [0]
@@ -233,9 +245,11 @@ def _run(loop, params, chooser):
                     for t in range(T):
                         if ('end', t, item) not in ends:
                             violation = 'item %s never went through task %d' % (item, t)
-                if len(supplied) != K:
-                    violation = 'source not exhausted: %d of %d items taken' % (
-                        len(supplied), K)
+                if len(supplied) != limit[0]:
+                    violation = 'source not exhausted: %d of %d items taken%s' % (
+                        len(supplied), limit[0],
+                        ' (second process() on the same pipeline)' if params.get('rerun')
+                        else '')
         if violation is None and info['stopped']:
             allowed = info['started_before_stop'] | info['dequeued_before_stop']
             for e in log[info['stop_at']:]:
@@ -284,6 +298,9 @@ def configs(tier):
         for j in range(K + 1):
             extra.append(dict(K=K, T=1, conc=1, fail_src=j))
             extra.append(dict(K=K, T=1, conc=2, fail_src=j, src_latency=True))
+    # a second process() on the same pipeline after the source was refilled
+    extra.append(dict(K=1, T=1, conc=1, rerun=2, no_faults=True))
+    extra.append(dict(K=2, T=2, conc=2, rerun=1, no_faults=True))
     return out + extra
 
 
@@ -292,7 +309,8 @@ def jobs(tier, seed):
     budget = 1 if tier == 'quick' else 2
     for c in configs(tier):
         failing = 'fail_task' in c or 'fail_src' in c
-        c = dict(c, faults=dict(stop=1, conc=(1 if tier == 'quick' else 2)),
+        c = dict(c, faults=(dict(stop=0, conc=0) if c.get('no_faults') else
+                            dict(stop=1, conc=(1 if tier == 'quick' else 2))),
                  conc_values=[0, 1, 2] if tier == 'quick' else [0, 1, 2, 3])
         b = budget
         if tier != 'quick' and (c['K'] >= 3 or failing):
